@@ -94,6 +94,16 @@ class Setup:
         envB.update(self.env_random(rng, ['alpha', 'beta']))
         envB[self.st.alpha.c[()].val] = F(3, 2)
         s.append(('metric-values-free', envB))
+        # C: every metric jet fixed (designed value, generic derivatives); lapse and shift free
+        for w in (0, 1):
+            e = self.env_random(rng, ['gamma'], values=False, derivs=True)
+            e.update(self.env_metric_values(w))
+            s.append((f'metric-jets-fixed-{w}', e))
+        # D: lapse and shift jets fixed, metric value fixed, metric derivatives free
+        e = self.env_random(rng, ['alpha', 'beta'])
+        e[self.st.alpha.c[()].val] = F(5, 4)
+        e.update(self.env_metric_values(0))
+        s.append(('gauge-fixed-metric-derivs-free', e))
         return s
 
     def sampler(self):
